@@ -11,6 +11,7 @@ import PgVerif.Spec.LexRules
 import PgVerif.Model.Actions
 import PgVerif.Model.Recovery
 import PgVerif.Model.Cache
+import PgVerif.Model.Layout
 import PgVerif.Generated.Source
 /-!
 `pgmodel`: line-protocol driver. One request per line (a command word followed
@@ -297,6 +298,12 @@ def handle (st : St) (cmd : String) (args : List Nat) : St × String :=
       if i == j then !(before Src.sortW1 Src.sortW2 a a)
       else (before Src.sortW1 Src.sortW2 a b) != (before Src.sortW1 Src.sortW2 b a)))
     (st, if ok then "keysok 1" else "keysok 0")
+  | "skipws" =>
+    -- skipws <nws> {ws code points} <n> {text code points}: skip table for every position
+    match (do let ws ← rdList rd; let text ← rdList rd; pure (ws, text) : Rd _).run args with
+    | some ((ws, text), _) =>
+      (st, "skipws " ++ natList ((List.range (text.length + 1)).map (skipWs (fun c => ws.contains c) text)))
+    | none => (st, "bad-skipws")
   | "firstsets" => (st, "firstsets " ++ natList (firstSets st.gg))
   | "table" =>
     match rdTable.run args with
